@@ -1,13 +1,32 @@
+pub mod behave;
+pub mod c01;
+pub mod findings;
+
 use crate::common::{Report, Tier};
 
 pub fn run(id: &str, tier: Tier) -> Option<Report> {
-    let _ = tier;
-    match id {
-        _ => None,
-    }
+    Some(match id {
+        "C01" => c01::run(tier),
+        _ => return None,
+    })
 }
 
 pub fn replay(id: &str, path: &str) -> i32 {
-    println!("replay of {} from {} not implemented", id, path);
-    2
+    let text = match std::fs::read_to_string(path) {
+        Ok(t) => t,
+        Err(e) => {
+            println!("cannot read {}: {}", path, e);
+            return 2;
+        }
+    };
+    let doc: serde_json::Value = serde_json::from_str(&text).unwrap_or_default();
+    let replay = &doc["replay"];
+    println!("{}", doc["summary"].as_str().unwrap_or(""));
+    match (id, replay["kind"].as_str()) {
+        ("C01", Some("pipeline")) => behave::replay_pipeline(replay, behave::no_env, behave::no_env),
+        _ => {
+            println!("no dedicated replay for this record; the summary above holds the complete case");
+            2
+        }
+    }
 }
